@@ -21,6 +21,9 @@ pub enum K {
 	/// (ping enabled) a session with a call in flight whose peer stops reading/answering: the server gives it up for inactivity
 	WsSilentWithCall(u16),
 	MalformedUpgrade(u8),
+	/// a session whose peer sends a frame that violates the WebSocket protocol (reserved opcode, invalid UTF-8,
+	/// oversized control frame, unmasked client frame) and then goes away: the session ends on a receive error
+	WsBadFrame(u8),
 	RawHttp,
 	/// n cycles of one open/exit path
 	Repeat(u8, u8),
@@ -35,6 +38,9 @@ pub struct C11Case {
 	pub ping: bool,
 	#[serde(default)]
 	pub via_set_http_middleware: bool,
+	/// the limit is set on the service builder (`TowerServiceBuilder::max_connections`), not in the ServerConfig
+	#[serde(default)]
+	pub limit_via_service_builder: bool,
 }
 
 pub struct Connections;
@@ -59,6 +65,7 @@ struct W11 {
 	ws_enabled: bool,
 	http_enabled: bool,
 	ping: bool,
+	bad_frames: u32,
 }
 
 impl W11 {
@@ -270,6 +277,34 @@ impl W11 {
 				self.abnormal_exits += 1;
 				settle().await;
 			}
+			K::WsBadFrame(kind) => {
+				if at_limit || !self.ws_enabled {
+					return;
+				}
+				let (mut io, _task) = self.fix.raw_conn(4096);
+				let _ = io.write_all(UPGRADE_OK.as_bytes()).await;
+				settle().await;
+				let mut buf = vec![0u8; 2048];
+				let n = io.read(&mut buf).now_or_never().and_then(|r| r.ok()).unwrap_or(0);
+				let head = String::from_utf8_lossy(&buf[..n]).to_string();
+				if !head.starts_with("HTTP/1.1 101") {
+					self.fails.push(("c11/attempt-within-limit-refused".into(), format!("WS upgrade with {} in use (limit {}): {:?}", self.in_use(), self.limit, head.lines().next())));
+					return;
+				}
+				// (client frames are masked; with the all-zero masking key the payload bytes stay as written)
+				let frame: &[u8] = match kind % 4 {
+					0 => &[0x83, 0x80, 0, 0, 0, 0],
+					1 => &[0x81, 0x82, 0, 0, 0, 0, 0xff, 0xfe],
+					2 => &[0x89, 0xfe, 0x00, 0x7e, 0, 0, 0, 0],
+					_ => &[0x81, 0x01, b'x'],
+				};
+				let _ = io.write_all(frame).await;
+				settle().await;
+				drop(io);
+				self.abnormal_exits += 1;
+				self.bad_frames += 1;
+				settle().await;
+			}
 			K::RawHttp => {
 				// a keep-alive HTTP/1.1 connection through hyper with two sequential requests
 				if !self.http_enabled {
@@ -294,7 +329,8 @@ impl W11 {
 			}
 			K::Repeat(path, n) => {
 				for _ in 0..(*n as usize) {
-					let k = match path % 6 {
+					let k = match path % 7 {
+						6 => vec![K::WsBadFrame(*n)],
 						0 => vec![K::WsOpen, K::WsClose(0, false)],
 						1 => vec![K::WsOpen, K::WsClose(0, true)],
 						2 => vec![K::WsHalfUpgrade],
@@ -335,18 +371,19 @@ impl SubCheck for Connections {
 			1 => any::<u16>().prop_map(K::WsGatedCallThenDrop),
 			2 => Just(K::WsHalfUpgrade),
 			1 => (0u8..3).prop_map(K::MalformedUpgrade),
+			2 => (0u8..4).prop_map(K::WsBadFrame),
 			1 => Just(K::RawHttp),
-			1 => (0u8..6, 2u8..rep).prop_map(|(p, n)| K::Repeat(p, n)),
+			1 => (0u8..7, 2u8..rep).prop_map(|(p, n)| K::Repeat(p, n)),
 		];
-		(0u32..4, prop_oneof![6 => Just(0u8), 1 => Just(1u8), 1 => Just(2u8)], proptest::collection::vec(k, 1..max), proptest::bool::weighted(0.3), proptest::bool::weighted(0.3))
-			.prop_map(|(limit, mode, steps, ping, via_set_http_middleware)| C11Case { limit, mode, steps, ping, via_set_http_middleware })
+		(0u32..4, prop_oneof![6 => Just(0u8), 1 => Just(1u8), 1 => Just(2u8)], proptest::collection::vec(k, 1..max), proptest::bool::weighted(0.3), proptest::bool::weighted(0.3), proptest::bool::weighted(0.25))
+			.prop_map(|(limit, mode, steps, ping, via_set_http_middleware, limit_via_service_builder)| C11Case { limit, mode, steps, ping, via_set_http_middleware, limit_via_service_builder })
 			.boxed()
 	}
 	fn run(&self, case: &C11Case, obs: &mut Obs) {
 		let rt = rt();
 		rt.block_on(async {
-			let fix = Fixture::new(Cfg { max_connections: case.limit, mode: case.mode, ping: if case.ping { Some((600, 1500)) } else { None }, via_set_http_middleware: case.via_set_http_middleware, ..Cfg::default() });
-			let mut w = W11 { fix, limit: case.limit as usize, http: vec![], ws: vec![], tokens: 0, silent: vec![], ping: case.ping, fails: vec![], reached_limit: 0, abnormal_exits: 0, ws_enabled: case.mode != 1, http_enabled: case.mode != 2 };
+			let fix = Fixture::new(Cfg { max_connections: case.limit, mode: case.mode, ping: if case.ping { Some((600, 1500)) } else { None }, via_set_http_middleware: case.via_set_http_middleware, limit_via_service_builder: case.limit_via_service_builder, ..Cfg::default() });
+			let mut w = W11 { fix, limit: case.limit as usize, http: vec![], ws: vec![], tokens: 0, silent: vec![], ping: case.ping, bad_frames: 0, fails: vec![], reached_limit: 0, abnormal_exits: 0, ws_enabled: case.mode != 1, http_enabled: case.mode != 2 };
 			for (i, k) in case.steps.iter().enumerate() {
 				w.step(k).await;
 				if w.fails.is_empty() {
@@ -374,8 +411,14 @@ impl SubCheck for Connections {
 			if case.via_set_http_middleware {
 				obs.class("service-built-through-set_http_middleware");
 			}
+			if case.limit_via_service_builder {
+				obs.class("limit-set-on-the-service-builder");
+			}
 			if !w.silent.is_empty() {
 				obs.class("session-given-up-for-inactivity");
+			}
+			if w.bad_frames > 0 {
+				obs.class("session-ended-by-protocol-violation");
 			}
 			if case.steps.iter().any(|k| matches!(k, K::Repeat(..))) {
 				obs.class("with-repetition");
@@ -428,7 +471,7 @@ impl SubCheck for GiveUp {
 		let rt = rt();
 		rt.block_on(async {
 			let fix = Fixture::new(Cfg { max_connections: case.limit, ping_fine: Some((10, 1, case.max_failures as usize)), via_set_http_middleware: case.via_set_http_middleware, ..Cfg::default() });
-			let mut w = W11 { fix, limit: case.limit as usize, http: vec![], ws: vec![], tokens: 0, silent: vec![], ping: true, fails: vec![], reached_limit: 0, abnormal_exits: 0, ws_enabled: true, http_enabled: true };
+			let mut w = W11 { fix, limit: case.limit as usize, http: vec![], ws: vec![], tokens: 0, silent: vec![], ping: true, bad_frames: 0, fails: vec![], reached_limit: 0, abnormal_exits: 0, ws_enabled: true, http_enabled: true };
 			if case.http_gated && case.limit >= 2 {
 				w.step(&K::HttpGated).await;
 			}
@@ -506,9 +549,9 @@ impl SubCheck for GiveUp {
 pub fn long_cycles(tier: Tier) -> Vec<C11Case> {
 	let n = tier.pick(200u8, 250);
 	let mut v = vec![];
-	for path in 0..6u8 {
+	for path in 0..7u8 {
 		for limit in 1..=3u32 {
-			v.push(C11Case { limit, mode: 0, steps: vec![K::Repeat(path, n), K::WsOpen, K::HttpGated, K::WsOpen, K::HttpQuick], ping: false, via_set_http_middleware: path % 2 == 1 });
+			v.push(C11Case { limit, mode: 0, steps: vec![K::Repeat(path, n), K::WsOpen, K::HttpGated, K::WsOpen, K::HttpQuick], ping: false, via_set_http_middleware: path % 2 == 1, limit_via_service_builder: path % 3 == 2 });
 		}
 	}
 	v
